@@ -229,6 +229,20 @@ def gen_inscribed(rng):
     return gen_oriented(rng)
 
 
+def gen_caliper(rng):
+    c0 = gen_analyze(rng)
+    while not c0["closed"] or c0["spec"].get("family") == "hook" or (c0["spec"]["camber"] == 0.0 and rng.random() < 0.8):
+        c0 = gen_analyze(rng)
+    spec = c0["spec"]
+    ang, tx, ty = spec["pose"]
+    chord = spec["chord"]
+    te = [chord * math.cos(ang) + tx, chord * math.sin(ang) + ty]
+    # any attitude: which leg of the hull comes last in the hull's own list depends on it
+    th = rng.uniform(0, 2 * math.pi)
+    rot = lambda p: [p[0] * math.cos(th) - p[1] * math.sin(th), p[0] * math.sin(th) + p[1] * math.cos(th)]
+    return {"k": "c10.caliper", "pts": [rot(p) for p in c0["pts"]], "ctol": 1e-9 * chord, "camber": [rot([tx, ty]), rot(te)], "chord": chord, "spec": spec}
+
+
 def gen_open_gap(rng):
     """open sections cut unevenly (one surface reaches clearly further than the other), the open end located by OpenIntersectGap,
     the other end by the camber / section intersection: analysed in both vertex orders"""
@@ -287,10 +301,12 @@ def corpus():
 
 def generate(rng, tier):
     n = 56 if tier == "quick" else 600
-    return [gen_analyze(rng) for _ in range(n)] + [gen_open_gap(rng) for _ in range(n // 2)] + [gen_oriented(rng) for _ in range(2 * n)] + [gen_orient(rng) for _ in range(2 * n)] + [gen_inscribed(rng) for _ in range(n)]
+    return [gen_analyze(rng) for _ in range(n)] + [gen_open_gap(rng) for _ in range(n // 2)] + [gen_oriented(rng) for _ in range(2 * n)] + [gen_orient(rng) for _ in range(2 * n)] + [gen_inscribed(rng) for _ in range(n)] + [gen_caliper(rng) for _ in range(2 * n)]
 
 
 def tag(c, r):
+    if c["k"] == "c10.caliper":
+        return "%s:camber%g:%s" % (c["k"], c["spec"]["camber"], "err" if r.get("err") else "panic" if r.get("panic") else "ok")
     if c["k"] == "c10.inscribed":
         return "%s:%d:%g:%s" % (c["k"], min(len(c["pts"]), 100), c["tol"] / c["chord"], "panic" if r.get("panic") else "ok")
     if c["k"] == "c10.orient":
@@ -352,7 +368,50 @@ def dist_poly(p, pts):
     return min(seg_dist(p, a, b) for a, b in zip(pts, pts[1:]))
 
 
+def hull_ccw(pts):
+    P = sorted(set(map(tuple, pts)))
+    if len(P) < 3:
+        return list(P)
+    def half(seq):
+        h = []
+        for p in seq:
+            while len(h) >= 2 and (h[-1][0] - h[-2][0]) * (p[1] - h[-2][1]) - (h[-1][1] - h[-2][1]) * (p[0] - h[-2][0]) <= 0:
+                h.pop()
+            h.append(p)
+        return h
+    lo, up = half(P), half(reversed(P))
+    return lo[:-1] + up[:-1]
+
+
 def oracle(c, r):
+    if c["k"] == "c10.caliper":
+        what = "caliper_chord_line of a generated section (chord %r, camber %r, %d vertices)" % (c["chord"], c["spec"]["camber"], len(c["pts"]))
+        if r.get("panic") or r.get("err") or "chord" not in r:
+            yield ("caliper-failed", what + " failed or panicked")
+            return
+        sec = r["section"]
+        h = hull_ccw(sec)
+        legs = sorted(((math.dist(h[i], h[(i + 1) % len(h)]), h[i], h[(i + 1) % len(h)]) for i in range(len(h))), reverse=True)
+        if len(legs) >= 2 and legs[0][0] - legs[1][0] < 1e-9 * c["chord"]:
+            return      # two longest legs of the same length: either may be the line of tangency
+        _, p1, p2 = legs[0]
+        le0 = c["camber"][0]
+        a, b = (p1, p2) if math.dist(p1, le0) < math.dist(p2, le0) else (p2, p1)
+        d = [(b[0] - a[0]) / math.dist(a, b), (b[1] - a[1]) / math.dist(a, b)]
+        proj = lambda p: (p[0] - a[0]) * d[0] + (p[1] - a[1]) * d[1]
+        te = max(sec, key=proj)
+        le = min(sec, key=proj)
+        tol = 1e-9 * c["chord"]
+        for nm, got, want in (("leading", r["chord"][0], le), ("trailing", r["chord"][1], te)):
+            if abs(proj(got) - proj(want)) > tol:
+                yield ("caliper-chord", what + ": the %s end %r lies at %r along the longest hull leg %r -> %r, the extreme point of the section is %r at %r" % (nm, got, proj(got), a, b, list(want), proj(want)))
+                return
+        for nm, got, src in (("leading", r["tangent"][0], r["chord"][0]), ("trailing", r["tangent"][1], r["chord"][1])):
+            w = [a[0] + d[0] * proj(src), a[1] + d[1] * proj(src)]
+            if math.dist(got, w) > tol:
+                yield ("caliper-tangent", what + ": the %s tangent point %r is not the projection %r of the chord end on the line of tangency" % (nm, got, w))
+                return
+        return
     if c["k"] == "c10.inscribed":
         what = "inscribed_from_spanning_ray on a section of %d vertices, ray %r -> %r, tolerance %r" % (len(c["pts"]), c["p0"], c["p1"], c["tol"])
         if r.get("panic") or "circle" not in r:
